@@ -165,7 +165,10 @@ def evaluate_custom(scripts, drivers):
             stats["frames"] += len(s.frames) + len(keep)
             stats["pairs"] += 1
             stats["monitor_evals"] += 1
-            if mask(full[-1]) != mask(res[-1]):
+            tail = len(keep) - k if k else 3            # the frames after the flood (and the probe's own earlier frames)
+            diff = [j for j in range(1, tail + 1) if mask(full[-j]) != mask(res[-j])]
+            pre = [j for j in range(k) if mask(full[j]) != mask(res[j])]
+            if diff or pre:
                 issues.append({"kind": "monitor", "script": s, "frame": len(s.frames) - 1, "driver": dname,
                                "monitor": "C08-metamorphic", "impl": full[-1].short()[:300], "model": res[-1].short()[:300],
                                "class": None, "noshrink": True})
